@@ -256,7 +256,8 @@ def run(ctx: common.Ctx):
         "nullable, lists/tuples/dicts/slices, positional or keyword, 1-3 outputs, optional non-idempotent in-place work, "
         "random subsets lazy); (3) user struct dtype round trips over 6 shapes; distinct = distinct cases; non-trivial = nested or mixed")
     quick = ctx.tier == "quick"
-    jobs = [(d, ctx.seed * 53 + k) for d in impl.CORE for k in range(3 if quick else 25)]
+    import zlib
+    jobs = [(d, zlib.crc32(f"{d}/{ctx.seed}/{k}".encode())) for d in impl.CORE for k in range(3 if quick else 25)]
     for job, r in tables.pairs(ctx, jobs, tables.pmap(spox_worker, jobs, chunk=6)):
         if isinstance(r, tables.Crashed):
             ctx.violation("spox/interpreter-crash", f"{job}", {"job": repr(job)}); continue
